@@ -86,6 +86,18 @@ NEEDS = {
     "C16e": "connection A makes the server unbox a reference to a class and lies in its HANDLE_INSPECT answer; a later connection B passing the class with the same id_pack gets the poisoned proxy type: netref class cache made process-wide and never cleared",
     "C17e": "ThreadPoolServer, a client that resets right after the server started tracking it: descriptor registered with the poller BEFORE the fd_to_conn entry exists; the poller's drop finds nothing, the accept thread then inserts an entry nobody will ever remove",
     "C18e": "the same (host, port) registered under two names at different times, the clock such that one entry is stale and the other fresh, then a query for the stale name: pruning calls cmd_unregister (all names) instead of removing that one entry",
+    "C01f": "a call with two or more keyword arguments not in alphabetical order, to a callee that looks at the ORDER of its **kwargs: keywords packed as tuple(sorted(kwargs.items()))",
+    "C03f": "an object already lent (live proxy at the peer) sent again inside a message that then fails to encode (next to 10**5000): the error path removes the table entry outright instead of taking back one count (rebased: same code as the tree's fix 5b80f55 with discard instead of decref)",
+    "C04f": "a tuple/frozenset of >= 32 items judged by dumpable() right after a freed container of the same size and the opposite verdict (CPython reuses the address): verdict memoised by id(obj)",
+    "C05f": "PipeStream with a non-blocking write descriptor: a write that hits EAGAIN after at least one successful os.write in the same call - the retry path re-applies the previous count and drops unsent bytes while reporting success",
+    "C07f": "a reference of the peer's own whose type name (id_pack[0]) is 'module.anything' for a module not yet imported, with the peer answering the follow-up HANDLE_INSPECT: pkgutil.resolve_name imports the module",
+    "C08f": "two sending threads on one connection, one message dumpable-but-unencodable (10**5000): packets are queued raw and encoded by whichever thread drains the queue - the failure is raised in the wrong thread and the packet is lost (rebased onto 5b80f55)",
+    "C09f": "an exception with at least one argument that is not brine-dumpable (list, dict, object, nested): an extra ('args', repr) attribute pair is sent and load() re-sets exc.args from it - the repr string explodes into characters",
+    "C10f": "the same by-reference object twice in one tuple, f(x, x): boxed once (memo by id) so the owner counts 1 while the peer's proxy counts 2; after the peer's release of 2 crossing a fresh send, the entry is dropped too early",
+    "C11f": "two threads share a connection; the stream ends for the lock owner between the other thread's failed try-lock and its Condition.wait (try-lock moved outside the condition): the second thread parks forever on a closed connection (C13b's mechanism, met through EOF)",
+    "C13f": "thread A dispatching the reply to thread B's request is preempted after `_is_ready = True` and before `_obj` is stored: B's request completes with None",
+    "C19f": "two numerically equal values of different type (7 and 7.0, 0.0 and -0.0) dumped in one process: module-level memo of encoded leaves keyed by the value (equality) - whichever came first decides the bytes",
+    "C20f": "download onto an EXISTING local file that is longer than the remote one: os.open without O_TRUNC, the stale tail stays",
     "C18b": "register, advance the clock, re-register, advance: setdefault never refreshes the time stamp, live server pruned / wrong order",
 }
 
